@@ -261,6 +261,14 @@ def _frame_goals(ctx: Ctx, out: Outcome, case: Case) -> List[Tuple[str, Any]]:
 def _check_path(contract: Contract, sc: Scenario, ctx: Ctx, cases: List[Case],
                 out: Outcome, path: Path, rep: FunctionReport,
                 prefix_id: str) -> None:
+    # evaluate every clause once first: clauses may instantiate lemma-library
+    # facts (path.assume), which must be part of the path condition below
+    for case in cases:
+        for _cn, fn in case.ensures:
+            try:
+                fn(ctx, out)
+            except Exception:
+                pass
     pc = list(path.pc)
     # intermediate obligations (callee preconditions)
     for oid, opc, goal, why in path.side_obligations:
@@ -308,7 +316,9 @@ def _check_path(contract: Contract, sc: Scenario, ctx: Ctx, cases: List[Case],
             if isinstance(goal, bool):
                 goal = z3.BoolVal(goal)
             o.merge(check_unsat(base + [z3.Not(goal)], PROOF_TIMEOUT_MS),
-                    f"clause '{cname}' of case '{case.name}'")
+                    f"clause '{cname}' of case '{case.name}' on a "
+                    f"{_describe(out, path)}"
+                    + (f" = {out.value!r}"[:200] if out.kind == "return" else ""))
         # frame
         fo = rep.ob(f"{cid}/frame", "frame", public, props)
         goals = _frame_goals(ctx, out, case)
